@@ -207,6 +207,11 @@ func (d *D) conformance(sc *core.Scenario, ctx *core.Ctx, n int) {
 	if len(sc.Files) == 0 {
 		return
 	}
+	for _, f := range sc.Files {
+		if f.Link != "" {
+			return // the conformance layer keeps to regular files
+		}
+	}
 	// fault-free: real binary vs in-process
 	in := d.execute(sc, nil)
 	rr := d.runReal(sc, "")
